@@ -168,14 +168,18 @@ fn main() {
 
 fn run_e1_property(id: &str, thorough: bool, ev: &mut Evidence, t0: Instant) {
     let checks = check_bit(id);
-    let cap = if thorough { Duration::from_secs(3300) } else { Duration::from_secs(50) };
+    // quick: the families are sized so that the whole check takes about 40-45 s on 16 unloaded cores; the wall cap is only a
+    // safety net for a much slower or loaded machine (a capped family is reported as NOT complete, never as exhaustive)
+    let cap = if thorough { Duration::from_secs(3300) } else { Duration::from_secs(100) };
     let deadline = Some(t0 + cap);
     let seeds = families::fs_with(&verif_dir().join("seeds"), thorough);
     // order: small / dense / deep families first (never capped), bulk families last (capped in the quick tier)
-    let mut fams: Vec<families::Family> = vec![families::f1(), families::fsetup(if thorough { 12 } else { 4 }, if thorough { 8 } else { 3 }), seeds, if thorough { families::fplus(families::interior_squares(), 3, "every interior square") } else { families::fplus(vec![18, 21, 42, 45, 49, 35, 34, 14], 3, "the 4 traps, b2, d4, c4, g7") }];
+    let mut fams: Vec<families::Family> = vec![families::f1(), families::fsetup(if thorough { 12 } else { 4 }, if thorough { 8 } else { 3 }), seeds, if thorough { families::fplus(families::interior_squares(), 3, "every interior square") } else { families::fplus(vec![42, 21, 49, 35, 34], 3, "traps c3 and f6, b2, d4, c4") }];
     let uncapped = fams.len();
     fams.push(families::f2());
-    fams.push(families::fd(2, 2, families::all_anchors(2, 2), 3, "all 49 anchors"));
+    if thorough || !matches!(id, "C05" | "C06") {
+        fams.push(families::fd(2, 2, families::all_anchors(2, 2), 3, "all 49 anchors"));
+    }
     if thorough {
         fams.push(families::f3w(None, &families::ALL_KINDS, "all 36 windows, all 12 kinds"));
         let a23: Vec<(usize, usize)> = vec![(0, 0), (1, 1), (4, 1), (2, 4), (5, 5), (3, 3)];
@@ -184,13 +188,25 @@ fn run_e1_property(id: &str, thorough: bool, ev: &mut Evidence, t0: Instant) {
         fams.push(families::fd(3, 2, a32, 3, "6 anchors (corner, trap neighbourhoods, centre)"));
         fams.push(families::f3r(&families::KINDS6, "RDErde"));
         fams.push(families::f4w(&families::KINDS6B, "RCErce"));
-    } else {
+    } else if matches!(id, "C01" | "C02" | "C04" | "C07" | "C12" | "C13") {
+        // three pieces at distance (pusher / victim / supporter or blocker): the properties about local rule geometry
         fams.push(families::f3w(Some(&families::QUICK_ANCHORS5), &families::KINDS6B, "5 windows (a1 corner, h8 corner, c3-centred, f6-centred, centre), kinds RCErce (three strength levels incl. the rabbit; every per-type code path is already covered on every square by F2)"));
     }
     let mut first_f1: Option<report::Stats> = None;
+    // padded local family: the plus fillings around c3 (and, rotated and colour-swapped, around f6) with 16 background pieces
+    for image in [false, true] {
+        if report::stopped() {
+            break;
+        }
+        let (fam, mask) = families::fplus_padded(image, 3);
+        let o = e1::E1Opts { prop: id, checks, move_number: 2, deadline: None, chunk: 1, roots_only: false, max_turns: 1, follow: Some(mask) };
+        let r = e1::run_family(&fam, &o);
+        eprintln!("  {} : roots={} states={} transitions={} {:.1}s {}", r.family, r.stats.roots, r.stats.states, r.stats.transitions, r.wall_s, r.note);
+        ev.families.push(r);
+    }
     if id == "C03" {
         for mn in [1usize, 3, 50, 255, 300, 65_535, 70_000, 1_000_000, (1usize << 32) - 1, (1usize << 32) + 1] {
-            let o = e1::E1Opts { prop: id, checks, move_number: mn, deadline: None, chunk: 1, roots_only: false, max_turns: 1 };
+            let o = e1::E1Opts { prop: id, checks, move_number: mn, deadline: None, chunk: 1, roots_only: false, max_turns: 1, follow: None };
             let mut r = e1::run_family(&families::f1(), &o);
             r.family = format!("{} — starting move number {}", r.family, mn);
             ev.families.push(r);
@@ -207,7 +223,7 @@ fn run_e1_property(id: &str, thorough: bool, ev: &mut Evidence, t0: Instant) {
             dense.push(families::fd(2, 4, vec![(3, 0), (3, 4), (0, 2), (6, 2)], 4, "edge middles"));
         }
         for fam in dense.iter() {
-            let o = e1::E1Opts { prop: id, checks, move_number: 2, deadline: None, chunk: 1, roots_only: true, max_turns: 1 };
+            let o = e1::E1Opts { prop: id, checks, move_number: 2, deadline: None, chunk: 1, roots_only: true, max_turns: 1, follow: None };
             let mut r = e1::run_family(fam, &o);
             r.family = format!("{} — turn-start oracle at the root only", r.family);
             eprintln!("  {} : roots={} {:.1}s", r.family, r.stats.roots, r.wall_s);
@@ -226,7 +242,7 @@ fn run_e1_property(id: &str, thorough: bool, ev: &mut Evidence, t0: Instant) {
         } else {
             0
         };
-        let o = e1::E1Opts { prop: id, checks: checks | extra, move_number: 2, deadline, chunk: 1, roots_only: false, max_turns: 1 };
+        let o = e1::E1Opts { prop: id, checks: checks | extra, move_number: 2, deadline, chunk: 1, roots_only: false, max_turns: 1, follow: None };
         let r = e1::run_family(fam, &o);
         eprintln!("  {} : roots={} states={} transitions={} {:.1}s {}", r.family, r.stats.roots, r.stats.states, r.stats.transitions, r.wall_s, r.note);
         if fam.name.starts_with("F1 ") {
@@ -239,7 +255,7 @@ fn run_e1_property(id: &str, thorough: bool, ev: &mut Evidence, t0: Instant) {
     }
     if thorough && !report::stopped() {
         let fs2 = families::fs2(&verif_dir().join("seeds"), 2);
-        let o = e1::E1Opts { prop: id, checks, move_number: 3, deadline, chunk: 1, roots_only: false, max_turns: 1 };
+        let o = e1::E1Opts { prop: id, checks, move_number: 3, deadline, chunk: 1, roots_only: false, max_turns: 1, follow: None };
         let r = e1::run_family(&fs2, &o);
         eprintln!("  {} : roots={} states={} transitions={} {:.1}s {}", r.family, r.stats.roots, r.stats.states, r.stats.transitions, r.wall_s, r.note);
         ev.families.push(r);
@@ -247,7 +263,7 @@ fn run_e1_property(id: &str, thorough: bool, ev: &mut Evidence, t0: Instant) {
     // determinism: the same family explored with a different thread partition must give identical counts and digest
     if let (Some(f1), false) = (first_f1, report::stopped()) {
         let pool = rayon::ThreadPoolBuilder::new().num_threads(3).build().unwrap();
-        let o = e1::E1Opts { prop: id, checks, move_number: 2, deadline: None, chunk: 1, roots_only: false, max_turns: 1 };
+        let o = e1::E1Opts { prop: id, checks, move_number: 2, deadline: None, chunk: 1, roots_only: false, max_turns: 1, follow: None };
         let again = pool.install(|| e1::run_family(&families::f1(), &o));
         if again.stats.states != f1.states || again.stats.transitions != f1.transitions || again.stats.digest != f1.digest {
             println!("MACHINERY-ERROR: re-exploring F1 with a different thread partition gave different counts/digest ({} / {} / {:016x} vs {} / {} / {:016x})", again.stats.states, again.stats.transitions, again.stats.digest, f1.states, f1.transitions, f1.digest);
@@ -297,6 +313,14 @@ fn run_e2_property(id: &str, thorough: bool, ev: &mut Evidence) {
         eprintln!("  {} : states={} transitions={} {:.1}s {} {}", r.family, r.stats.states, r.stats.transitions, r.wall_s, if r.complete { "complete" } else { "INCOMPLETE" }, r.note);
         ev.families.push(r);
     }
+    for r in e2::run_seed_shuffles(id, checks, thorough) {
+        eprintln!("  {} : states={} transitions={} {:.1}s {} {}", r.family, r.stats.states, r.stats.transitions, r.wall_s, if r.complete { "complete" } else { "INCOMPLETE" }, r.note);
+        ev.families.push(r);
+    }
+    let mut cfgs = cfgs;
+    if matches!(id, "C05" | "C06" | "C07" | "C08") {
+        cfgs.extend(e2::kind_sweep(thorough));
+    }
     let results = e2::run_configs(id, checks, &cfgs);
     // determinism: one configuration explored a second time (alone, on another worker) must reproduce counts and digest
     if !report::stopped() {
@@ -322,10 +346,10 @@ fn run_c15(thorough: bool, ev: &mut Evidence, t0: Instant) {
     ev.families.push(e4::c15_short_strings(id, if thorough { 6 } else { 5 }));
     let deadline = Some(t0 + Duration::from_secs(if thorough { 3600 } else { 45 }));
     // round trips over reachable states: every state of F1 (all step prefixes), every F2 root, every FS state of one turn
-    let o_all = e1::E1Opts { prop: id, checks: C15, move_number: 2, deadline, chunk: 1, roots_only: false, max_turns: 1 };
+    let o_all = e1::E1Opts { prop: id, checks: C15, move_number: 2, deadline, chunk: 1, roots_only: false, max_turns: 1, follow: None };
     ev.families.push(e1::run_family(&families::f1(), &o_all));
     for mn in [1usize, 3, 50, 1_000_000, (1usize << 32) + 1] {
-        let o = e1::E1Opts { prop: id, checks: PARSE_LINK, move_number: mn, deadline, chunk: 1, roots_only: true, max_turns: 1 };
+        let o = e1::E1Opts { prop: id, checks: PARSE_LINK, move_number: mn, deadline, chunk: 1, roots_only: true, max_turns: 1, follow: None };
         let mut r = e1::run_family(&families::f1(), &o);
         r.family = format!("{} — roots only, starting move number {}", r.family, mn);
         ev.families.push(r);
@@ -333,14 +357,14 @@ fn run_c15(thorough: bool, ev: &mut Evidence, t0: Instant) {
     if thorough {
         ev.families.push(e1::run_family(&families::f2(), &o_all));
     } else {
-        let o = e1::E1Opts { prop: id, checks: PARSE_LINK, move_number: 2, deadline, chunk: 1, roots_only: true, max_turns: 1 };
+        let o = e1::E1Opts { prop: id, checks: PARSE_LINK, move_number: 2, deadline, chunk: 1, roots_only: true, max_turns: 1, follow: None };
         let mut r = e1::run_family(&families::f2(), &o);
         r.family = format!("{} — roots only", r.family);
         ev.families.push(r);
     }
     let fs = families::fs(&verif_dir().join("seeds"));
     if fs.n > 0 {
-        let o = e1::E1Opts { prop: id, checks: PARSE_LINK, move_number: 2, deadline, chunk: 1, roots_only: !thorough, max_turns: 1 };
+        let o = e1::E1Opts { prop: id, checks: PARSE_LINK, move_number: 2, deadline, chunk: 1, roots_only: !thorough, max_turns: 1, follow: None };
         ev.families.push(e1::run_family(&fs, &if thorough { e1::E1Opts { checks: C15, ..o } } else { o }));
     }
     // setup states and finished set-ups
